@@ -177,7 +177,13 @@ func checkCLI(c CLICase) (CLIOutcome, error) {
 			s.Versions = append(s.Versions, v)
 			s.Ck = append(s.Ck, files[v].ck)
 		}
-		for _, r := range db.revs {
+		for i, r := range db.revs {
+			// a revision that is not the last one and stopped in the middle of its file (a run with --exec-order non-linear
+			// that failed inside an out-of-order file) has not applied its file: for the reference the file is still missing
+			// from the history, i.e. out of order. A manually resolved one (`migrate set`) counts as applied.
+			if i < len(db.revs)-1 && r.Applied != r.Total && r.Type&4 == 0 {
+				continue
+			}
 			s.Revs = append(s.Revs, r.Version)
 		}
 		if n := len(db.revs); n > 0 {
@@ -327,6 +333,12 @@ func checkCLI(c CLICase) (CLIOutcome, error) {
 						if rv.Version == v {
 							from = rv.Applied
 						}
+					}
+				}
+				// an out-of-order file that an earlier non-linear run left half applied is resumed as well
+				for i, rv := range before.revs {
+					if rv.Version == v && i < len(before.revs)-1 && rv.Applied != rv.Total && rv.Type&4 == 0 {
+						from = rv.Applied
 					}
 				}
 				if from <= 1 {
